@@ -3,7 +3,7 @@
     method selection) around the pure evaluator of Model/Core.v, for ANY number type and any
     operator semantics (in particular the tables generated from operations.py). *)
 From Coq Require Import List Arith Bool ZArith QArith.
-From QV Require Import Base.QOps Gen.OpsTable Model.Core Model.CoreQ Model.CoreState Model.CoreStateQ Proofs.CoreState.
+From QV Require Import Base.QOps Gen.OpsTable Model.Core Model.CoreQ Model.CoreState Model.CoreStateQ Proofs.CoreState Proofs.CoreCopy.
 Import ListNotations.
 
 Section C05.
@@ -50,9 +50,23 @@ Section C05.
     mc_gen T (dlookup T s k) = Some g -> x <> Recalc T k -> x <> SetSampleSize T k ->
     mc_gen T (dlookup T (fst (step s x)) k) = Some g.
   Proof. exact (samples_kept T zero one two add mul su sb du db negative). Qed.
+
+  (** "the same formula built afresh": if object k' is a copy of object k (same operators, constants and
+      measurements; every intermediate calculated quantity built again, recursively) then its fresh value,
+      variance and derivatives with respect to every measurement are those of k.  Together with C05_recalc:
+      after recalculate() a result is indistinguishable from the same formula built afresh, also when it
+      was assembled through (reused) intermediate results. *)
+  Theorem C05_rebuild : forall l rho k k', wf T l = true ->
+    copy T zero l k k' -> (k < length l)%nat -> (k' < length l)%nat ->
+    value T zero su sb l k = value T zero su sb l k' /\
+    err2 T zero one two add mul su sb du db rho l k = err2 T zero one two add mul su sb du db rho l k' /\
+    (forall m, not_a_result T zero l m ->
+       deriv T zero one su sb du db l k m = deriv T zero one su sb du db l k' m).
+  Proof. exact (copy_fresh T zero one two add mul su sb du db). Qed.
 End C05.
 
 Print Assumptions C05_invariant.
+Print Assumptions C05_rebuild.
 Print Assumptions C05_recalc.
 Print Assumptions C05_derivative_current.
 Print Assumptions C05_stable.
